@@ -4,6 +4,7 @@ import ast
 import z3
 
 from . import ops, seqs
+from .values import fresh_name as ops_fresh, to_int_term
 from .ops import Arith, truth, b_and, b_or, b_not, equal, merge, ite
 from .values import (EngineError, NONE, ListV, SeqV, OptV, ObjV, MapV, SetV, RangeV, ExcV, StrV, LitSet, TSmallSet,
                      TInt, TBool, TReal, TTuple, TSeq, TOpt, is_z3, is_scalar, is_bv, is_real,
@@ -280,6 +281,28 @@ def _minmax(is_min):
         from .engine import Raised
         key = kwargs.get("key")
         default = kwargs.get("default")
+        if len(args) == 1 and isinstance(args[0], SetV) and key is None and default is None:
+            # max / min of a symbolic set of integers or of tuples of integers (lexicographic): a member that bounds all members
+            sv = args[0]
+            kq = z3.Const(ops_fresh("k"), sv.dom.sort().domain())
+            kval = E.key_value(sv.key, kq)
+            comps = [to_int_term(c) for c in (kval if isinstance(kval, tuple) else (kval,))]
+            sel = z3.Select(sv.dom, kq)
+            out = []
+            for s2, _v in E.partial(st, node, 'ValueError', z3.Exists([kq], sel), None):
+                if isinstance(_v, Raised):
+                    out.append((s2, _v))
+                    continue
+                ms = [z3.Int(ops_fresh("min" if is_min else "max")) for _ in comps]
+
+                def lex_le(a, b):
+                    if len(a) == 1:
+                        return a[0] <= b[0]
+                    return z3.Or(a[0] < b[0], z3.And(a[0] == b[0], lex_le(a[1:], b[1:])))
+                bound = lex_le(ms, comps) if is_min else lex_le(comps, ms)
+                s3 = s2.assume(z3.ForAll([kq], z3.Implies(sel, bound)), z3.Exists([kq], z3.And(sel, *[c == m_ for c, m_ in zip(comps, ms)])))
+                out.append((s3, tuple(ms) if isinstance(kval, tuple) else ms[0]))
+            return out
         if len(args) == 1:
             items = E.static_items(args[0])
             if items is None:
